@@ -45,8 +45,15 @@ Restrict(f, ks) == [x \in ks |-> f[x]]
 (* The observable state as a record, and the effect of each action as a       *)
 (* function on such records (used by the actions below and, on states         *)
 (* observed on the real code, by ConsentTrace.tla).                           *)
-St(mf, it, d, t, fs, lo, re, up, rq) ==
-    [modeFile |-> mf, intent |-> it, day |-> d, tod |-> t, files |-> fs, local |-> lo, ready |-> re, uploaded |-> up, requests |-> rq]
+St(mf, it, d, t, fs, lo, re, up, rq, pr) ==
+    [modeFile |-> mf, intent |-> it, day |-> d, tod |-> t, files |-> fs, local |-> lo, ready |-> re, uploaded |-> up, requests |-> rq,
+     proc |-> pr]
+
+(* One long-running counting process (think gopls): proc.st is "none" before it *)
+(* has opened its counter file, "open" while it holds the file proc.f mapped,   *)
+(* "disabled" once it has found the mode off at an open or a rotation.          *)
+NoProcFile == [p |-> "", b |-> -1, e |-> -1]
+NoProc == [st |-> "none", f |-> NoProcFile]
 
 (* The mode that governs what the library may do: what the user set with the   *)
 (* last accepted SetMode; when the file was last written by hand (or never),   *)
@@ -80,6 +87,23 @@ CollectStep(s, p, w) ==
     LET f == [p |-> p, b |-> Begin(s.day), e |-> End(s.day, w)] IN
     IF EffMode(Gov(s)) = "off" THEN s
     ELSE [s EXCEPT !.files = IF f \in DOMAIN s.files THEN [s.files EXCEPT ![f] = @ + 1] ELSE Put(s.files, f, 1)]
+
+(* The long-running process p (week-end setting w) opens or rotates its counter *)
+(* file - which is when the library consults the mode - and then increments its *)
+(* counter once.  Once it has seen the mode off it creates no counter file and  *)
+(* writes nothing any more, whatever is rotated or incremented later; otherwise *)
+(* it counts in the file of the span that begins today.                         *)
+Bump(fs, g) == IF g \in DOMAIN fs THEN [fs EXCEPT ![g] = @ + 1] ELSE fs
+ProcRotateStep(s, p, w) ==
+    LET f == [p |-> p, b |-> Begin(s.day), e |-> End(s.day, w)] IN
+    IF s.proc.st = "disabled" THEN s
+    ELSE IF EffMode(Gov(s)) = "off" THEN [s EXCEPT !.proc = [st |-> "disabled", f |-> NoProcFile]]
+    ELSE IF s.proc.st = "open" /\ s.proc.f.b = f.b THEN [s EXCEPT !.files = Bump(s.files, s.proc.f)]     \* still the same span
+    ELSE [s EXCEPT !.files = IF f \in DOMAIN s.files THEN Bump(s.files, f) ELSE Put(s.files, f, 1),
+                   !.proc = [st |-> "open", f |-> f]]
+(* An increment between rotations lands in the file the process holds (and is  *)
+(* invisible if the uploader has removed that file meanwhile).                  *)
+ProcIncStep(s) == IF s.proc.st = "open" THEN [s EXCEPT !.files = Bump(s.files, s.proc.f)] ELSE s
 
 (* The library call SetMode(arg) as of day d, arg being the word m with padding *)
 (* p: a valid mode is recorded with the date, an invalid one is rejected and    *)
@@ -127,9 +151,16 @@ C_SentOnlyIf(a, s, t) == \A which \in {"future", "optin"} : C_SentOnlyIfW(which,
 (* "With mode off neither the counter API nor the uploader creates, changes or  *)
 (* removes any counter file or report"                                          *)
 C_OffChangesNothing(a, s, t) ==
-    (ExactlyOff(Gov(s)) /\ a.op \in {"run", "collect"}) =>
+    (ExactlyOff(Gov(s)) /\ (a.op \in {"run", "collect", "protate"} \/ (a.op = "pinc" /\ s.proc.st # "open"))) =>
         /\ t.files = s.files /\ t.local = s.local /\ t.ready = s.ready /\ t.uploaded = s.uploaded
         /\ t.requests = s.requests
+(* (The library consults the mode when a process opens its counter file and at  *)
+(* every rotation.  What a process that opened its file before the user turned  *)
+(* telemetry off adds to that file until its next rotation is not decided here: *)
+(* op "pinc" with the file still held.)  Once a process has seen the mode off   *)
+(* it stays silent: nothing it rotates or increments later reaches the disk.    *)
+C_DisabledStaysSilent(a, s, t) ==
+    (a.op \in {"protate", "pinc"} /\ s.proc.st = "disabled" /\ ExactlyOff(Gov(s))) => t.files = s.files
 
 (* "any other value or an unreadable mode file behaves as local (reports built, *)
 (* nothing sent)": every finished week that has no report yet gets its local    *)
